@@ -114,6 +114,11 @@ impl Ctx {
         Ctx { mode, model, records: Vec::new(), assumes_ok: true, fp_bound: None, diff_mode: DiffMode::Generic, values: Vec::new(), tol: 1e-3, default_seed: 7, default_range: (0.25, 0.75) }
     }
     pub fn aligned_diff(&mut self, _on: bool) {}
+    pub fn schedule(&mut self, _mode: &str) {}
+    /// run `f` on a dedicated rayon pool of `n` worker threads
+    pub fn with_threads<T: Send>(&mut self, n: usize, f: impl FnOnce() -> T + Send) -> T {
+        rayon::ThreadPoolBuilder::new().num_threads(n).build().unwrap().install(f)
+    }
     pub fn symbolic(&self) -> bool {
         false
     }
